@@ -39,7 +39,7 @@ ICE = ["H", "H2", "CO", "H2O", "N2", "OH", "O", "C", "CH4", "NH3"]
 def budget(tier):
     if tier == "quick":
         return dict(examples=14, shards=16, shrink_calls=40)
-    return dict(examples=300, shards=16, shrink_calls=600)
+    return dict(examples=200, shards=16, shrink_calls=600)
 
 
 def _lr(fmt, r, p, code, a=1.0e-10, b=0.0, c=0.0, idx=1, tmin=0, tmax=0):
